@@ -11,20 +11,20 @@ pub static PROP: Prop = Prop {
     title: "Hypergraph morphism validation, monomorphism and convexity tests are exact",
     check,
     max_tape: (180, 320),
-    cases: (150_000, 3_000_000),
+    cases: (300_000, 3_000_000),
     both_profiles: true,
     rule: "a generated target hypergraph G with (a) a sub-hypergraph inclusion with shuffled numbering or a fold merging equal-labelled nodes (valid by construction), (b) the same with one planted flaw (one entry of w or x retargeted, codomain size +-1, one label changed, an incidence list edited), or (c) arbitrary maps; validity, the named failing condition, injectivity and convexity compared with brute-force definitions (product-graph BFS for convexity); non-trivial = a planted-flaw case, or a valid inclusion into a graph with >= 1 outside edge and >= 2 image nodes; distinct = hash of (H, G, w, x)",
     assumptions: &["a rejection may name any condition that is false; which one is reported first is not constrained"],
     fixed: Some(fixed),
 };
 
-struct Arrow {
-    h: Diagram, // source
-    g: Diagram, // target
-    w: Vec<usize>,
-    wt: usize,
-    x: Vec<usize>,
-    xt: usize,
+pub struct Arrow {
+    pub h: Diagram, // source
+    pub g: Diagram, // target
+    pub w: Vec<usize>,
+    pub wt: usize,
+    pub x: Vec<usize>,
+    pub xt: usize,
 }
 
 struct Truth {
@@ -116,7 +116,7 @@ fn convex(a: &Arrow) -> bool {
     true
 }
 
-fn hyper(t: &mut Tape, ctx: &mut Ctx, al: gen::Alpha) -> Diagram {
+pub fn hyper(t: &mut Tape, ctx: &mut Ctx, al: gen::Alpha) -> Diagram {
     let sz = ctx.sizes;
     let mut d = gen::diagram(t, &sz, al, ctx);
     d.s.clear();
@@ -125,7 +125,7 @@ fn hyper(t: &mut Tape, ctx: &mut Ctx, al: gen::Alpha) -> Diagram {
 }
 
 /// sub-hypergraph inclusion with shuffled numbering
-fn inclusion(t: &mut Tape, g: &Diagram) -> Arrow {
+pub fn inclusion(t: &mut Tape, g: &Diagram) -> Arrow {
     let ne = g.edges.len();
     let n = g.nodes.len();
     let keep_e: Vec<usize> = (0..ne).filter(|_| t.chance(1, 2)).collect();
@@ -170,7 +170,7 @@ fn inclusion(t: &mut Tape, g: &Diagram) -> Arrow {
 }
 
 /// fold: quotient of H by pairs of equal-labelled nodes
-fn fold(t: &mut Tape, h: &Diagram) -> Arrow {
+pub fn fold(t: &mut Tape, h: &Diagram) -> Arrow {
     let n = h.nodes.len();
     let mut pairs = vec![];
     if n > 0 {
@@ -182,10 +182,20 @@ fn fold(t: &mut Tape, h: &Diagram) -> Arrow {
     }
     let (g, q) = h.glue(&pairs).expect("equal labels");
     let _ = partition_of_pairs;
-    Arrow { h: h.clone(), g: g.clone(), w: q, wt: g.nodes.len(), x: (0..h.edges.len()).collect(), xt: g.edges.len() }
+    // the source may carry extra copies of some edges, all sent to the original (x not injective)
+    let mut hh = h.clone();
+    let mut x: Vec<usize> = (0..h.edges.len()).collect();
+    if !h.edges.is_empty() {
+        for _ in 0..t.choice(3) {
+            let e = t.choice(h.edges.len());
+            hh.edges.push(h.edges[e].clone());
+            x.push(e);
+        }
+    }
+    Arrow { h: hh, g: g.clone(), w: q, wt: g.nodes.len(), x, xt: g.edges.len() }
 }
 
-fn plant_flaw(t: &mut Tape, a: &mut Arrow, al: gen::Alpha) -> &'static str {
+pub fn plant_flaw(t: &mut Tape, a: &mut Arrow, al: gen::Alpha) -> &'static str {
     match t.choice(7) {
         0 if !a.w.is_empty() && a.wt > 1 => {
             let i = t.choice(a.w.len());
